@@ -192,3 +192,22 @@ for _k, (_t, _n) in ADDENDA.items():
     LEVELS[_k]["text"] = LEVELS[_k]["text"] + " SESSION 3 — " + _t
     if _n:
         LEVELS[_k]["note"] = LEVELS[_k]["note"] + " SESSION 3 — " + _n
+
+# technique field: what decides the property now (session 3 broadened the deciding method of several properties)
+TECH3 = {
+ "C01": "AllNeighbors completeness and the float cross-face wrap proved on the soft-float",
+ "C02": "float error analysis of every triage / stable / dot / cos / sin² stage as Lean theorems on a soft-float PROVED correctly rounded (robustSign_exact, compareDistances_exact, compareDistance_exact); regenerated definitions of predicates.go tied by rfl",
+ "C03": "FullExactness proved for the float crosser on all unit-ish finite points (error analysis of triage, stable sign and the tangent rejection on the soft-float)",
+ "C04": "crossing-parity cocycle proved for the exact predicates from the realisable-chirotope theorem; tiling parity theorems",
+ "C05": "bit-exact models of the Cell / CellUnion / Cap region predicates with float soundness theorems (slack 2^-44) making the coverer theorems end to end for those regions",
+ "C06": "bit-exact regenerated model of the index construction; I1 proved from the float error analysis of edge clipping (build_I1_float)",
+ "C07": "regenerated model of the two-index relation walk, proved equal to the exact relation up to the single hypothesis CenterSound",
+ "C08": "search theorems instantiated over the soft-float for point targets with explicit slack from the proved Cell.Distance and UpdateMinDistance bounds",
+ "C12": "float error analysis on the soft-float: ContainsPoint margin, Distance / BoundaryDistance / DistanceToEdge / DistanceToCell lower bounds and attained, MaxDistance upper bound, CapBound contains the exact cell",
+ "C15": "inversion theorems on the regenerated decoders: decoded values are safe to query and to re-encode; accessor correspondence op c15shape",
+ "C16": "bit identity proved for the canonicalised Intersection; accuracy 8u and unit length proved by float error analysis of the stable and exact paths under explicit side conditions",
+ "C17": "float error analysis of UpdateMinDistance (vertex, interior, prefilter), edge pairs, Project and EdgePairClosestPoints on the soft-float against closed-form exact distances",
+ "C19": "the carrier laws discharged for binary64 (soft-float proved correctly rounded); cap AddPoint / AddCap / Union / Expanded proved on Normalize-grade vectors",
+}
+for _k, _t in TECH3.items():
+    LEVELS[_k]["technique"] = LEVELS[_k]["technique"] + "; session 3: " + _t
